@@ -227,7 +227,8 @@ func (P *Program) isHarness(fn *ssa.Function) bool {
 		f = f.Parent()
 	}
 	name := filepath.Base(fn.Prog.Fset.Position(f.Pos()).Filename)
-	h := strings.HasPrefix(name, "zz_verif_")
+	// harness functions named ...Tracked stand for client/back-end code whose accesses count
+	h := strings.HasPrefix(name, "zz_verif_") && !strings.HasSuffix(f.Name(), "Tracked")
 	P.harnessFn.Store(fn, h)
 	return h
 }
